@@ -187,14 +187,31 @@ def find_loader(flow: Flow):
     return out
 
 
-def K1_loader(rep, flow: Flow, T, tier):
-    rep.rule("K1", "the loader turns each documented token into exactly one gate of that class on exactly the written qubits (all distinct tokens of the shipped tables + whole sample lines, evaluated on the loader's syntax tree with a gate recorder)", floor=50, exhaustive=True)
+def K1_loader(rep, flow: Flow, T, tier, exact=True):
+    rep.rule("K1", ("the loader turns each documented token into exactly one gate of that class on exactly the written qubits" if exact else
+                    "the loader appends nothing but the token's own gate, on exactly the written qubits (it may drop a token)") +
+             " (all distinct tokens of the shipped tables + whole sample lines, evaluated on the loader's syntax tree with a gate recorder, under every calling convention the API uses)", floor=50, exhaustive=True)
     loaders = find_loader(flow)
     if len(loaders) != 1:
         raise AnalysisError(f"expected exactly one table-token loader, found {sorted(loaders)}")
     lfq = next(iter(loaders))
     rep.analysed["table loader"] = lfq
     ce = consteval.CE(flow.prog, max_steps=20_000_000)
+    # the loader is evaluated as the API calls it: constant extra arguments of those calls are passed along
+    conventions = {}
+    for fq in ("stabilizer_circuits.get_readout_circuit", "mub_circuits.get_mub_circuits"):
+        for r in flow.paths(fq):
+            for ev in r.events:
+                if ev[0] == "call" and ev[1] == lfq:
+                    extra_pos = tuple(a.v for a in ev[2][2:] if isinstance(a, Const))
+                    kw = tuple(sorted((k, v.v) for k, v in ev[3].items() if isinstance(v, Const)))
+                    if len(extra_pos) != max(0, len(ev[2]) - 2) or len(kw) != len(ev[3]):
+                        raise AnalysisError(f"loader {lfq} is called with non-constant extra arguments at {ev[4]}")
+                    conventions[(extra_pos, kw)] = ev[4]
+    if not conventions:
+        raise AnalysisError(f"no call of the loader {lfq} found on the API paths")
+    rep.analysed["loader calling conventions on the API paths"] = [f"extra positional {list(k[0])}, keywords {dict(k[1])} (e.g. at {w})" for k, w in conventions.items()]
+    _K1_CONV[:] = list(conventions)
     tokens = {}
     for f in T.files:
         for L in f.lines:
@@ -211,6 +228,12 @@ def K1_loader(rep, flow: Flow, T, tier):
     for tok, (nm, qs) in sorted(tokens.items()):
         o = _run_loader(ce, lfq, 6, tok)
         want = [(nm,) + tuple(qs)]
+        if not exact:
+            # connectivity only needs: nothing but the token's gate is appended (dropping it is harmless here)
+            cands = o["convention-dependent"] if isinstance(o, dict) else [o]
+            if all(c == [] or c == want or (isinstance(c, list) and len(c) == 1 and c[0][0] == nm and set(c[0][1:]) == set(qs)) for c in cands):
+                rep.ok("K1", 1, nontrivial=tok, sample=f"'{tok}' -> {cands[0]}")
+                continue
         if o != want:
             # operand order of cx matters for the state only; arity / qubit set / class for C02, C04
             if isinstance(o, list) and len(o) == 1 and o[0][0] == nm and set(o[0][1:]) == set(qs) and nm in ("cz", "swap"):
@@ -230,6 +253,14 @@ def K1_loader(rep, flow: Flow, T, tier):
         text = L.raw.split(":")[-1]
         o = _run_loader(ce, lfq, f.n, text)
         want = [(op.name,) + tuple(op.qubits) for op in L.ops]
+        if not exact:
+            cands = o["convention-dependent"] if isinstance(o, dict) else [o]
+            def subseq(a, b):
+                it = iter(b)
+                return isinstance(a, list) and all(any(x == y for y in it) for x in a)
+            if all(subseq(c, want) for c in cands):
+                rep.ok("K1", 1, nontrivial=(f.name, L.index))
+                continue
         if o != want:
             rep.finding("K1", f"line:{f.name}:{L.index}", f"loader output for {L.where()} differs from the token sequence of the line: {str(o)[:200]}")
         else:
@@ -240,14 +271,26 @@ def K1_loader(rep, flow: Flow, T, tier):
         rep.note("loader silently drops tokens of the form 'hs<q>' (T2 forbids them in the data)")
 
 
+_K1_CONV = [((), ())]
+
+
 def _run_loader(ce, lfq, n, text):
-    try:
-        r = ce.call(lfq, n, text)
-    except consteval.CERaise as ex:
-        return f"raise {ex.etype}"
-    if not isinstance(r, consteval.Recorder):
-        raise AnalysisError(f"loader {lfq} did not return a circuit recorder")
-    return list(r.log)
+    """gate log of the loader on `text`, under every calling convention used by the API (they must agree)"""
+    outs = []
+    for (pos, kw) in _K1_CONV:
+        try:
+            r = ce.call(lfq, n, text, *pos, **dict(kw))
+        except consteval.CERaise as ex:
+            outs.append(f"raise {ex.etype}")
+            continue
+        if not isinstance(r, consteval.Recorder):
+            raise AnalysisError(f"loader {lfq} did not return a circuit recorder")
+        outs.append(list(r.log))
+    first = outs[0]
+    for o in outs[1:]:
+        if o != first:
+            return {"convention-dependent": outs}
+    return first
 
 
 def K2_reader(rep, flow: Flow):
@@ -396,3 +439,69 @@ def _params(k, out=None):
             for x in k[1:]:
                 _params(x, out)
     return out
+
+
+# ---------------------------------------------------------------------------------------------
+def request_envs(f):
+    """valid requests for an entry point, as assignments of the symbols its conditions may mention.
+    yields (label, env) for every advertised (m, c) and every consistent register size"""
+    P = lambda n: ("param", n)
+    for (m, c) in spec.ADVERTISED:
+        base = {P("connectivity"): c}
+        if "num_qubits" in f.params:
+            e = dict(base)
+            e[P("num_qubits")] = m
+            yield (f"({m}, {c!r})", e)
+            continue
+        for who in ("stabilizer", "circuit"):
+            if who in f.params:
+                base[("attr", P(who), "num_qubits")] = m
+                base[("attr", ("ext:qiskit.quantum_info.StabilizerState", P(who)), "num_qubits")] = m
+        if "preparation_circuit" in f.params:
+            # all qubits measured
+            e = dict(base)
+            e[("attr", P("preparation_circuit"), "num_qubits")] = m
+            e[P("measured_qubits")] = None
+            yield (f"({m}, {c!r}), all qubits measured", e)
+            # a subset of a larger register
+            for N in range(m, 9):
+                e = dict(base)
+                e[("attr", P("preparation_circuit"), "num_qubits")] = N
+                e[("len", P("measured_qubits"))] = m
+                e[P("measured_qubits")] = tuple(range(m))
+                yield (f"({m}, {c!r}), {m} of {N} qubits measured", e)
+        else:
+            yield (f"({m}, {c!r})", base)
+
+
+def G6_no_extra_rejection(rep, flow: Flow):
+    rep.rule("G6", "every advertised pair is served by every entry point: no raise path of an entry point taking a connectivity can be taken by a valid request for an advertised (qubit count, connectivity) - as far as the path's conditions are decidable from the request's sizes and names (conditions on the stabilizer's content are skipped)", floor=8)
+    from . import symeval
+    ce = consteval.CE(flow.prog)
+    mods = API_MODULES
+    for f in flow.public_functions(mods):
+        if "connectivity" not in f.params:
+            continue
+        raises = [r for r in flow.paths(f.fq) if r.kind == "raise"]
+        n_decided = 0
+        bad = None
+        envs = list(request_envs(f))
+        for r in raises:
+            for (label, env) in envs:
+                try:
+                    if all(symeval.decision_holds(k, v, env, ce) for k, v in r.decisions.items()):
+                        # every condition on the way to this raise is satisfied by a valid request
+                        relevant = [k for k in r.decisions if k[0] in ("truth", "isnone")]
+                        if not relevant:
+                            continue
+                        bad = (label, r.what, [fmt(k[1]) for k in relevant][:3])
+                        break
+                    n_decided += 1
+                except symeval.Unknown:
+                    continue
+            if bad:
+                break
+        if bad:
+            rep.finding("G6", f"{f.fq}:rejects:{bad[0].split(',')[1].strip(' )')}", f"{f.module.rel} {f.qualname}: a valid request for the advertised configuration {bad[0]} is rejected (`raise {bad[1][:80]}`) under the conditions {bad[2]}")
+        else:
+            rep.ok("G6", 1, nontrivial=f.fq, sample=f"{f.qualname}: {len(raises)} raise path(s), none reachable by a valid advertised request ({n_decided} path x request combinations decided)")
